@@ -27,6 +27,40 @@ Semantics assumed for numpy on float64 arrays (part of the trusted base, exercis
   Inputs that are not parameters: `FnSpec.opaque` (the result of a call: table look-ups, random numbers — one input per
   name, or one per call site), `FnSpec.opaque_locals` (a local whose defining statement is not read: fancy indexing,
   argmin over a table); a local declared unread (None) poisons every expression that uses it.
+  Integer index arrays (`SymI`, Lean type `Nat`): `np.zeros_like(x, dtype=int)` is the index 0; a Boolean-mask store of a
+  concrete integer into an integer array (`i[H_b[j] <= h] = j`, typically inside a loop over a concrete `range`, which is
+  unrolled) is `i := if mask then j else i`; the translator keeps the finite set of values such an index can take, and
+  `table[i]` for a concrete 1-D float table is `List.getD [t0, t1, …] i 0` ONLY when every such value is a valid
+  non-negative position of the table (so the default is never read and numpy's negative-index wrap-around cannot occur);
+  `np.full(shape, v)` is `v` element-wise (the shape is not evaluated: every symbolic array of one function has the same
+  shape, which is the translator's standing element-wise assumption); `np.empty_like` reads as 0 until it is overwritten.
+  Closures (`FnSpec.outer`): for `qualname = "outer.inner"` the statements of `outer` that precede `def inner` are executed
+  first (with `outer`'s parameters bound to the concrete values of `FnSpec.outer`); `inner` is translated in that environment.
+  `np.linspace(lo, hi, n)` (concrete n; only with `FnSpec.ideal_linspace`) is idealised, like `np.radians`: it is the list
+  `Np.linspace lo hi n` of the prelude `lean/NssVerif/Model/Numpy.lean` (`k*((hi-lo)/(n-1)) + lo`, last node `hi` — numpy's
+  own formula), NOT the rounded doubles of the live array; `np.searchsorted(list, x)` (side left) is `Np.searchsortedLeft list x` = number of leading elements `< x`
+  (numpy's binary search returns the same index on a sorted array; sortedness of the idealised grid is a theorem of the
+  property, not of the translator), an index with values 0..n; `np.minimum(i, k)` of an index and a concrete integer is
+  `Nat.min i k`; `.size` / `len()` of such a list is n; arithmetic between concrete integers is done in Python.
+  `FnSpec.opaque_reads`: `table[i, j]` on the named concrete array with symbolic indices is the named fresh input (only when
+  every value the indices can take is a valid position).  `FnSpec.inline`: a call of the named function of the working tree
+  with symbolic arguments is translated in place (its statements become `let`s of the caller).  `FnSpec.also_return`: the
+  named locals are returned in front of the function's own result (to expose e.g. the indices of a table read).
+  (There is ONE in-place mechanism: `FnSpec.inline` is a dict callee text -> None | sub-spec; a tuple/list of callee texts
+  means "every name -> None".  A callee read without a sub-spec inherits the caller's `opaque` and `inline` tables and its
+  reading modes `inf_name`, `exact_consts`, `ideal_linspace`; the tables that are keyed by names local to one function —
+  `opaque_locals`, `opaque_reads`, and `sym_attrs` unless the callee is a method of the same object — are NOT inherited.
+  A callee read with a sub-spec uses the sub-spec's declarations only, except that `np.inf` stays the caller's input when the
+  sub-spec names none.  Integer indices, idealised grids, table reads, the prelude import and `Nat` results work the same
+  inside a callee; `outer` and `also_return` concern the translated function itself, a nested function is never a callee.
+  The names of a per-call-site `opaque` list are consumed once, in the order in which the sites are first reached, across the
+  caller and every callee that inherits the list; keyword arguments that a callee collects in `**kwargs` are passed on to it.
+  A choice between two integers (`np.where(c, 1, 0)`, a mask store of an integer into an integer) is an index only when no
+  concrete alternative is negative; otherwise it is read as a real number, which cannot index a table.)
+  `FnSpec.inf_name`: `np.inf` (as a constant or as a table entry) is the named extra input — `Scalar` has no infinity; the
+  driver passes IEEE +inf for it, the theorems treat it as a real number with the stated hypotheses.
+  `FnSpec.exact_consts`: concrete floats that come from the live module (module-level tables and constants; NOT the literals
+  spelled in the function itself) are emitted as the exact double `Scalar.dy m e = m·2^e` instead of the shortest decimal.
 
 What is NOT translated (raises `Unsupported`, i.e. the regeneration fails and the tie is reported broken): loops over
 symbolic data, reductions over an axis of unknown length, fancy indexing, try/with, raise on a symbolic path, calls into third-party code with symbolic
@@ -88,6 +122,46 @@ class Masked:
 
     def __init__(self, val, mask: SymB):
         self.val, self.mask = val, mask
+
+
+class SymI:
+    """an integer-valued (element-wise) symbolic index of Lean type `Nat`; `vals` = every value it can take"""
+
+    def __init__(self, lean: str, vals):
+        self.lean, self.vals = lean, frozenset(int(v) for v in vals)
+
+    def __repr__(self):
+        return f"SymI({self.lean}; {sorted(self.vals)})"
+
+
+class SymL:
+    """a symbolic list of Lean type `List α` with a concrete length `n` (an idealised `np.linspace` grid)"""
+
+    def __init__(self, lean: str, n: int):
+        self.lean, self.n = lean, int(n)
+
+    def __repr__(self):
+        return f"SymL({self.lean}; n={self.n})"
+
+
+def is_int(v) -> bool:
+    return isinstance(v, (int, np.integer)) and not isinstance(v, (bool, np.bool_))
+
+
+def dyadic(x: float) -> str:
+    """the exact double `x` as `Scalar.dy m e` (odd mantissa), the spelling `Gen/AtmConsts.lean` uses"""
+    x = float(x)
+    if not math.isfinite(x):
+        raise Unsupported(f"non-finite constant {x}")
+    if x == 0.0:
+        return "(Scalar.dy 0 0 : α)" if math.copysign(1, x) > 0 else "(-(Scalar.dy 0 0 : α))"
+    m, e = math.frexp(x)
+    mi = int(m * (1 << 53))
+    e -= 53
+    while mi % 2 == 0:
+        mi //= 2
+        e += 1
+    return f"(Scalar.dy ({mi}) ({e}) : α)"
 
 
 LEAN_KEYWORDS = {"at", "from", "fun", "end", "in", "let", "do", "then", "else", "if", "have", "show", "by", "with", "match",
@@ -197,11 +271,20 @@ class FnSpec:
     opaque_locals : python local -> lean name | list of lean names (a `Vec`) | None.  An assignment `local = <expr>` is not
                   translated: the local IS the fresh input (table look-ups, fancy indexing); None = the local is never
                   read by the translated part (reading it raises `Unsupported`).  One assignment statement per local.
-    inline      : dotted callee text -> None | FnSpec (only its sym_attrs/opaque/opaque_locals/inline are used).  The call is
-                  translated by inlining the callee's source even when all its arguments are concrete (None: the callee
-                  inherits this spec's opaque/inline tables); with a FnSpec the callee (e.g. a live object's `__call__`)
-                  is read with its own declarations, whose fresh inputs become inputs of this definition.
+    inline      : dotted callee text (as written in the source) -> None | FnSpec, or a tuple/list of callee texts (= every
+                  name -> None).  The call is translated in place, by inlining the callee's source, even when all its
+                  arguments are concrete.  None: the callee inherits this spec's opaque/inline tables and its reading modes
+                  inf_name/exact_consts/ideal_linspace.  With a FnSpec the callee (e.g. a live object's `__call__`) is read
+                  with its own declarations, whose fresh inputs become inputs of this definition (only its sym_attrs/
+                  opaque/opaque_locals/opaque_reads/inline/inf_name/exact_consts/ideal_linspace are used; when it names
+                  no `inf_name`, `np.inf` stays this spec's input).
     outputs     : for methods that store on self and return nothing: the attributes to export (ordered); None = all stored
+    inf_name    : lean name of an extra input standing for `np.inf`
+    exact_consts: emit concrete floats of the live module as exact doubles (`Scalar.dy m e`)
+    outer       : for a nested function (`qualname = "outer.inner"`): concrete values of the parameters of `outer`
+    opaque_reads: concrete array name -> lean name of the fresh input standing for a read at symbolic indices
+    also_return : names of locals to return in front of the result
+    ideal_linspace: read `np.linspace` as the idealised grid of the prelude instead of evaluating it in the live module
     """
     module: str
     qualname: str
@@ -214,7 +297,22 @@ class FnSpec:
     outputs: list | None = None
     doc: str = ""
     opaque_locals: dict = field(default_factory=dict)
-    inline: dict = field(default_factory=dict)
+    inline: dict | tuple | list = field(default_factory=dict)   # callee text -> None | sub-spec; a tuple/list of names is normalised to a dict
+    inf_name: str | None = None      # lean name of the extra input standing for `np.inf` (None: a non-finite constant is Unsupported)
+    exact_consts: bool = False       # concrete non-literal floats as exact doubles `Scalar.dy m e`
+    outer: dict = field(default_factory=dict)          # closures: parameter of the enclosing function -> concrete value
+    opaque_reads: dict = field(default_factory=dict)   # python name of a concrete array -> lean name of the input standing for `array[i, j]`
+    also_return: tuple = ()                             # locals returned in front of the function's own result
+    ideal_linspace: bool = False                        # `np.linspace(lo, hi, n)` is the idealised list `Np.linspace lo hi n`
+
+    def __post_init__(self):
+        if isinstance(self.inline, str):
+            self.inline = (self.inline,)
+        if not isinstance(self.inline, dict):
+            self.inline = {n: None for n in self.inline}
+        for n, sub in self.inline.items():
+            if not isinstance(n, str) or not (sub is None or isinstance(sub, FnSpec)):
+                raise Unsupported(f"FnSpec.inline of `{self.name}`: expected callee text -> None | FnSpec, got {n!r} -> {sub!r}")
 
 
 class Result:
@@ -222,27 +320,31 @@ class Result:
         self.spec, self.params, self.lets, self.ret, self.src_sha, self.src_loc = spec, params, lets, ret, src_sha, src_loc
 
     # ---- shape of the result
+    @staticmethod
+    def kind(v) -> str:
+        return "Bool" if isinstance(v, SymB) else ("Nat" if isinstance(v, SymI) else "α")
+
     def fields(self):
-        """[(accessor, kind, label)] over the flattened result; kind in {'α','Bool'}"""
+        """[(accessor, kind, label)] over the flattened result; kind in {'α','Bool','Nat'}"""
         r = self.ret
         if isinstance(r, dict):
-            return [(f"r.{k}", "Bool" if isinstance(v, SymB) else "α", k) for k, v in r.items()]
+            return [(f"r.{k}", self.kind(v), k) for k, v in r.items()]
         if isinstance(r, tuple):
             n = len(r)
             out = []
             for i, v in enumerate(r):
                 acc = "r" + ".2" * i + (".1" if i < n - 1 else "")
-                out.append((acc, "Bool" if isinstance(v, SymB) else "α", f"ret{i}"))
+                out.append((acc, self.kind(v), f"ret{i}"))
             return out
-        return [("r", "Bool" if isinstance(r, SymB) else "α", "ret")]
+        return [("r", self.kind(r), "ret")]
 
     def ret_type(self):
         r = self.ret
         if isinstance(r, dict):
             return f"{self.spec.name[0].upper() + self.spec.name[1:]}Out α"
         if isinstance(r, tuple):
-            return " × ".join("Bool" if isinstance(v, SymB) else "α" for v in r)
-        return "Bool" if isinstance(r, SymB) else "α"
+            return " × ".join(self.kind(v) for v in r)
+        return self.kind(r)
 
     def lean(self) -> str:
         s = self.spec
@@ -251,7 +353,7 @@ class Result:
             sn = s.name[0].upper() + s.name[1:] + "Out"
             out.append(f"/-- everything `{s.qualname}` stores on the object -/\nstructure {sn} (α : Type) where")
             for k, v in self.ret.items():
-                out.append(f"  {k} : {'Bool' if isinstance(v, SymB) else 'α'}")
+                out.append(f"  {k} : {self.kind(v)}")
             out.append("")
         doc = (s.doc + "\n" if s.doc else "") + f"translated from `{s.module}.{s.qualname}` ({self.src_loc}, sha256 of the function source {self.src_sha[:16]})"
         if getattr(self, "inlined", None):
@@ -272,7 +374,7 @@ class Result:
 
     def driver_op(self, ns: str, opname: str) -> str:
         args = " ".join(f"(arg a {i})" for i in range(len(self.params)))
-        toks = ", ".join((f"h ({acc})" if kind == "α" else f"b ({acc})") for acc, kind, _ in self.fields())
+        toks = ", ".join((f"h ({acc})" if kind == "α" else (f"toString ({acc})" if kind == "Nat" else f"b ({acc})")) for acc, kind, _ in self.fields())
         return (f'  ("{opname}", fun a =>\n    let r := {ns}.{self.spec.name} (α := Float) {args}\n'
                 f'    " ".intercalate [{toks}])')
 
@@ -288,7 +390,10 @@ class Translator:
         tree = ast.parse(mfile.read_text())
         node = None
         scope = tree.body
+        self.enclosing: list = []   # the functions `spec.qualname` is nested in (closures), outermost first
         for part in spec.qualname.split("."):
+            if isinstance(node, ast.FunctionDef):
+                self.enclosing.append(node)
             node = next((n for n in scope if isinstance(n, (ast.FunctionDef, ast.ClassDef)) and n.name == part), None)
             if node is None:
                 raise Unsupported(f"{spec.module}.{spec.qualname}: `{part}` not found in the source")
@@ -296,10 +401,12 @@ class Translator:
         if not isinstance(node, ast.FunctionDef):
             raise Unsupported(f"{spec.qualname} is not a function")
         self.fn = node
+        self.repo_src = repo_src
         self.file_text = mfile.read_text()
         seg = ast.get_source_segment(self.file_text, node) or ""
-        self.src_sha = hashlib.sha256(ast.dump(node, include_attributes=False).encode()).hexdigest()
-        self.src_loc = f"{mfile.relative_to(repo_src.resolve().parent) if repo_src.resolve().parent in mfile.parents else mfile.name}:{node.lineno}-{node.end_lineno}"
+        top = self.enclosing[0] if self.enclosing else node   # a closure is identified by its outermost function
+        self.src_sha = hashlib.sha256(ast.dump(top, include_attributes=False).encode()).hexdigest()
+        self.src_loc = f"{mfile.relative_to(repo_src.resolve().parent) if repo_src.resolve().parent in mfile.parents else mfile.name}:{top.lineno}-{top.end_lineno}"
         self.src_text = seg
         self.globals = dict(vars(self.mod))
         self.lets: list[tuple[str, str]] = []
@@ -330,17 +437,22 @@ class Translator:
             for v in sp.opaque_locals.values():
                 for n in (() if v is None else v if isinstance(v, (tuple, list)) else (v,)):
                     reg(n)
+            for v in sp.opaque_reads.values():
+                reg(v)
             for sub in sp.inline.values():
                 if sub is not None:
                     reg_spec(sub, seen)
+            if sp.inf_name is not None and sp.inf_name not in self.params:
+                reg(sp.inf_name)
         reg_spec(spec, set())
-        self.repo_src = repo_src
         self.inlined: list = []      # (callee, AST dump) of every inlined working-tree function, for the source hash
         self.sites: dict = {}        # (call path, lineno, col) -> lean name of a per-call-site opaque input
-        self.site_count: dict = {}   # (id(spec), callee text) -> number of sites named so far
+        self.site_count: dict = {}   # id(list of per-call-site names) -> number of sites named so far
         self.local_sites: dict = {}  # (call path, local) -> the one assignment statement that defines an opaque local
         self.path: tuple = ()        # call sites through which the current function was inlined
         self.depth = 0
+        self.needs: set = set()      # prelude modules the generated module has to import ({"Numpy"}: `NssVerif.Model.Numpy`)
+        self.tables: dict = {}       # (table bytes, index, spelling of the constants) -> the `let` that holds `table[index]`
 
     # ------------------------------------------------------------------ helpers
     def fresh(self, base: str) -> str:
@@ -364,13 +476,21 @@ class Translator:
             n = self.fresh(pyname)
             self.lets.append((n, val.lean))
             return SymB(n)
+        if isinstance(val, SymI):
+            n = self.fresh(pyname)
+            self.lets.append((f"{n} : Nat", val.lean))
+            return SymI(n, val.vals)
+        if isinstance(val, SymL):
+            n = self.fresh(pyname)
+            self.lets.append((f"{n} : List α", val.lean))
+            return SymL(n, val.n)
         if isinstance(val, tuple):
             return type(val)(self.bind(f"{pyname}{i}", v) for i, v in enumerate(val))
         return val
 
     @staticmethod
     def symbolic(v) -> bool:
-        if isinstance(v, (Sym, SymB, Masked, Poison)):
+        if isinstance(v, (Sym, SymB, SymI, SymL, Masked, Poison)):
             return True
         if isinstance(v, (tuple, list)):
             return any(Translator.symbolic(x) for x in v)
@@ -386,8 +506,19 @@ class Translator:
             raise Unsupported("a Boolean array used as a number")
         if isinstance(v, Poison):
             raise Unsupported(f"local `{v.name}` is declared unread (opaque_locals) but is used")
+        if isinstance(v, SymI):
+            return f"(Scalar.ofNat {v.lean} : α)"   # an integer array in float arithmetic is converted exactly
+        if isinstance(v, SymL):
+            raise Unsupported("an idealised grid (a list) used as a number")
         if isinstance(v, (tuple, list)):
             raise Unsupported("a sequence used as a number")
+        if isinstance(v, np.ndarray) and v.ndim == 0:
+            v = v[()]
+        if isinstance(v, (float, np.floating)) and not isinstance(v, LitF):
+            if math.isinf(float(v)) and self.spec.inf_name is not None:
+                return self.spec.inf_name if float(v) > 0 else f"(-{self.spec.inf_name})"
+            if self.spec.exact_consts:
+                return dyadic(float(v))
         return lit(v)
 
     def N(self, v) -> str:
@@ -414,6 +545,14 @@ class Translator:
             raise Unsupported(f"a vector of {n} elements is not unrolled")
         cols = [list(a) if self.is_vec(a) else [a] * n for a in args]
         return Vec(fn(*xs) for xs in zip(*cols))
+
+    def I(self, v) -> str:
+        """lean text of a `Nat` index operand"""
+        if isinstance(v, SymI):
+            return v.lean
+        if is_int(v) and int(v) >= 0:
+            return str(int(v))
+        raise Unsupported(f"expected a non-negative integer index, got {v!r}")
 
     def B(self, v) -> str:
         if isinstance(v, SymB):
@@ -454,7 +593,7 @@ class Translator:
                     except Exception:  # noqa
                         f = None
                     try:
-                        if f in IDEALISED:
+                        if f in IDEALISED or (f is np.linspace and self.spec.ideal_linspace):
                             return False
                     except TypeError:
                         pass
@@ -511,6 +650,8 @@ class Translator:
         base = self.ev(node.value, st)
         if isinstance(base, (Sym, Masked, Vec)) and node.attr in ("value", "real", "T"):
             return base
+        if isinstance(base, SymL) and node.attr == "size":
+            return base.n
         raise Unsupported(f"attribute `{ast.unparse(node)}` of a symbolic value")
 
     def ev_Tuple(self, node, st):
@@ -554,7 +695,11 @@ class Translator:
         raise Unsupported(f"operator {type(op).__name__} in `{text}`")
 
     def ev_BinOp(self, node, st):
-        return self.arith(node.op, self.ev(node.left, st), self.ev(node.right, st), ast.unparse(node))
+        a, b = self.ev(node.left, st), self.ev(node.right, st)
+        if is_int(a) and is_int(b) and isinstance(node.op, (ast.Add, ast.Sub, ast.Mult)):
+            # both operands are concrete integers (e.g. `grid.size - 1`): Python's exact integer arithmetic
+            return int(a) + int(b) if isinstance(node.op, ast.Add) else (int(a) - int(b) if isinstance(node.op, ast.Sub) else int(a) * int(b))
+        return self.arith(node.op, a, b, ast.unparse(node))
 
     def cmp(self, op, a, b):
         if isinstance(op, (ast.Is, ast.IsNot)):
@@ -603,6 +748,11 @@ class Translator:
             return {k: self.ite(c, a[k], b[k]) for k in keys}
         if isinstance(a, SymB) or isinstance(b, SymB):
             return SymB(f"(if {c.lean} then {self.B(a)} else {self.B(b)})")
+        if (isinstance(a, SymI) or is_int(a)) and (isinstance(b, SymI) or is_int(b)) and not any(is_int(x) and int(x) < 0 for x in (a, b)):
+            # both alternatives are integers: the result is an integer (index) array, and it can take the values of either
+            # (a negative concrete integer is no `Nat`: the value is then read as a real number, which cannot index a table)
+            vals = (a.vals if isinstance(a, SymI) else {int(a)}) | (b.vals if isinstance(b, SymI) else {int(b)})
+            return SymI(f"(if {c.lean} then {self.I(a)} else {self.I(b)})", vals)
         return Sym(f"(if {c.lean} then {self.S(a)} else {self.S(b)})")
 
     def ev_IfExp(self, node, st):
@@ -618,6 +768,27 @@ class Translator:
             return Masked(base, idx)
         if isinstance(base, tuple) and isinstance(idx, (int, np.integer)):
             return base[int(idx)]
+        nm = dotted(node.value)
+        if nm in self.spec.opaque_reads and isinstance(base, np.ndarray):
+            ix = idx if isinstance(idx, tuple) else (idx,)
+            if len(ix) != base.ndim or not all(isinstance(i, SymI) or is_int(i) for i in ix):
+                raise Unsupported(f"`{ast.unparse(node)}`: an opaque table read needs one integer index per axis")
+            for ax, i in enumerate(ix):
+                bad = sorted(v for v in (i.vals if isinstance(i, SymI) else {int(i)}) if not (0 <= v < base.shape[ax]))
+                if bad:
+                    raise Unsupported(f"`{ast.unparse(node)}`: index {ax} can take the value(s) {bad[:4]}, outside 0..{base.shape[ax] - 1}")
+            return Sym(self.spec.opaque_reads[nm])
+        if isinstance(idx, SymI) and isinstance(base, np.ndarray) and base.ndim == 1 and base.dtype.kind == "f":
+            # `table[i]`: sound only if every value the index can take is a valid non-negative position
+            bad = sorted(v for v in idx.vals if not (0 <= v < len(base)))
+            if bad:
+                raise Unsupported(f"`{ast.unparse(node)}`: the index can take the value(s) {bad}, outside 0..{len(base) - 1}")
+            key = (base.tobytes(), idx.lean, self.spec.exact_consts, self.spec.inf_name)
+            if key not in self.tables:
+                elems = ", ".join(self.S(x) for x in base)
+                nm = (dotted(node.value) or "table").replace(".", "_") + "_" + "".join(c if c.isalnum() else "_" for c in idx.lean)
+                self.tables[key] = self.bind(nm, Sym(f"(List.getD [{elems}] {idx.lean} (Scalar.ofNat 0))"))
+            return self.tables[key]
         raise Unsupported(f"subscript `{ast.unparse(node)}`")
 
     def ev_Call(self, node, st):
@@ -628,10 +799,10 @@ class Translator:
                 # one fresh input per call site (the same site reached again — both arms of a symbolic `if` — is the same input)
                 key = (self.path, node.lineno, node.col_offset)
                 if key not in self.sites:
-                    k = self.site_count.get((id(self.spec), p), 0)
+                    k = self.site_count.get(id(v), 0)   # per list of names (a callee that inherits the table continues the count)
                     if k >= len(v):
                         raise Unsupported(f"`{p}` is called at more sites than the {len(v)} names declared for it")
-                    self.site_count[(id(self.spec), p)] = k + 1
+                    self.site_count[id(v)] = k + 1
                     self.sites[key] = v[k]
                 return Sym(self.sites[key])
             return tuple(Sym(n) for n in v) if isinstance(v, tuple) else Sym(v)
@@ -639,11 +810,33 @@ class Translator:
         if f is np.ones or f is np.zeros:
             # reached only when the shape argument is read from a symbolic array: the constant of the elementwise view
             return 1.0 if f is np.ones else 0.0
+        if f is np.full:
+            # element-wise view: every element is the fill value (the shape expression is not evaluated)
+            fv = node.args[1] if len(node.args) > 1 else next((k.value for k in node.keywords if k.arg == "fill_value"), None)
+            if fv is None:
+                raise Unsupported(f"`{ast.unparse(node)}` without a fill value")
+            return self.ev(fv, st)
         args = [self.ev(a, st) for a in node.args]
         kw = {k.arg: self.ev(k.value, st) for k in node.keywords}
         tgt = self.inline_target(node, p, f)
         if tgt is not None:
             return self.inline_call(node, p, tgt, args, kw)
+        if f is np.linspace and self.spec.ideal_linspace:
+            if len(args) != 3 or kw or self.symbolic(args[2]) or not is_int(args[2]):
+                raise Unsupported(f"`{ast.unparse(node)}`: only linspace(lo, hi, n) with a concrete n is translated")
+            self.needs.add("Numpy")
+            return SymL(f"(Np.linspace {self.S(args[0])} {self.S(args[1])} {int(args[2])})", int(args[2]))
+        if f is np.searchsorted:
+            side = kw.get("side", args[2] if len(args) > 2 else "left")
+            if len(args) < 2 or not isinstance(args[0], SymL) or side != "left" or set(kw) - {"side"}:
+                raise Unsupported(f"`{ast.unparse(node)}`: only searchsorted(<idealised grid>, x) with side='left' is translated")
+            self.needs.add("Numpy")
+            return SymI(f"(Np.searchsortedLeft {args[0].lean} {self.S(args[1])})", range(args[0].n + 1))
+        if f is builtins.len and len(args) == 1 and isinstance(args[0], SymL):
+            return args[0].n
+        if f in (np.minimum, builtins.min) and len(args) == 2 and any(isinstance(a, SymI) for a in args) and all(isinstance(a, SymI) or is_int(a) for a in args):
+            va, vb = [(a.vals if isinstance(a, SymI) else {int(a)}) for a in args]
+            return SymI(f"(Nat.min {self.I(args[0])} {self.I(args[1])})", {min(x, y) for x in va for y in vb})
         if f is None:
             # method of a symbolic value: x.copy(), x.astype(float)
             if isinstance(node.func, ast.Attribute):
@@ -696,6 +889,9 @@ class Translator:
             return acc
         if f in (np.zeros_like, np.ones_like, np.full_like, np.empty_like):
             if f is np.zeros_like:
+                dt = kw.get("dtype")
+                if dt is not None and not self.symbolic(dt) and np.issubdtype(np.dtype(dt), np.integer):
+                    return 0
                 return 0.0
             if f is np.ones_like:
                 return 1.0
@@ -763,20 +959,28 @@ class Translator:
         return fdef, text, mod, self_obj, (self.spec.inline.get(p) if explicit else None)
 
     def inline_call(self, node, p, tgt, args, kw):
+        """translate the body of a function of the working tree in place: its `let`s are appended to the caller's"""
         fdef, text, mod, self_obj, sub = tgt
         if self.depth >= 12:
             raise Unsupported(f"inlining depth exceeded at `{ast.unparse(node)[:60]}`")
-        if sub is None:   # same tables as the caller; the attribute paths of `self` keep their meaning only on the same object
-            sp = FnSpec(mod.__name__, fdef.name, self.spec.name, sym_attrs=(self.spec.sym_attrs if self_obj is self.spec.self_obj and self_obj is not None else {}),
-                        opaque=self.spec.opaque, inline=self.spec.inline, self_obj=self_obj)
+        me = self.spec
+        if sub is None:
+            # same tables and reading modes as the caller; the attribute paths of `self` keep their meaning only on the same
+            # object, and the tables keyed by local names (opaque_locals, opaque_reads) only inside the function they were written for
+            sp = FnSpec(mod.__name__, fdef.name, me.name, sym_attrs=(me.sym_attrs if self_obj is me.self_obj and self_obj is not None else {}),
+                        opaque=me.opaque, inline=me.inline, self_obj=self_obj,
+                        inf_name=me.inf_name, exact_consts=me.exact_consts, ideal_linspace=me.ideal_linspace)
         else:
-            sp = FnSpec(mod.__name__, fdef.name, self.spec.name, sym_attrs=sub.sym_attrs, opaque=sub.opaque,
-                        opaque_locals=sub.opaque_locals, inline=sub.inline, self_obj=self_obj)
+            sp = FnSpec(mod.__name__, fdef.name, me.name, sym_attrs=sub.sym_attrs, opaque=sub.opaque,
+                        opaque_locals=sub.opaque_locals, opaque_reads=sub.opaque_reads, inline=sub.inline, self_obj=self_obj,
+                        inf_name=(sub.inf_name if sub.inf_name is not None else me.inf_name), exact_consts=sub.exact_consts,
+                        ideal_linspace=sub.ideal_linspace)
         ch = Translator.__new__(Translator)
         ch.spec, ch.mod, ch.fn, ch.file_text, ch.globals = sp, mod, fdef, text, dict(vars(mod))
         ch.src_sha, ch.src_loc, ch.src_text = self.src_sha, self.src_loc, ""
         ch.lets, ch.used, ch.params = self.lets, self.used, self.params
         ch.repo_src, ch.sites, ch.site_count, ch.local_sites = self.repo_src, self.sites, self.site_count, self.local_sites
+        ch.tables, ch.needs, ch.enclosing = self.tables, self.needs, []      # shared with the caller; a callee is never a closure
         ch.path = self.path + ((node.lineno, node.col_offset),)
         ch.depth = self.depth + 1
         self.inlined.append((f"{mod.__name__}.{getattr(fdef, 'qualname', fdef.name)}", ast.dump(fdef, include_attributes=False)))
@@ -790,12 +994,20 @@ class Translator:
             raise Unsupported(f"too many positional arguments in `{ast.unparse(node)[:60]}`")
         for n, v in zip(pos, args):
             env[n] = v
+        extra = {}
+        if None in kw:   # `**d` in the call: a concrete dict is spread, anything else is not read
+            d = kw.pop(None)
+            if not isinstance(d, dict) or any(k in kw for k in d):
+                raise Unsupported(f"`**` argument in `{ast.unparse(node)[:60]}`")
+            kw = {**kw, **d}
         for k, v in kw.items():
             if k in env:
                 raise Unsupported(f"argument `{k}` given twice in `{ast.unparse(node)[:60]}`")
             if k in pos or k in [x.arg for x in a.kwonlyargs]:
                 env[k] = v
-            elif not a.kwarg:
+            elif a.kwarg:
+                extra[k] = v
+            else:
                 raise Unsupported(f"keyword argument `{k}` in `{ast.unparse(node)[:60]}`")
         allp = a.posonlyargs + a.args
         for arg, dflt in list(zip(allp[len(allp) - len(a.defaults):], a.defaults)) + [(x, d) for x, d in zip(a.kwonlyargs, a.kw_defaults) if d is not None]:
@@ -807,7 +1019,7 @@ class Translator:
         if a.vararg:
             env[a.vararg.arg] = tuple(args[len(pos):])
         if a.kwarg:
-            env[a.kwarg.arg] = {}
+            env[a.kwarg.arg] = extra
         st2 = (env, {})
         r = ch.block(fdef.body, st2)
         if r is None or r == ("__none__",):
@@ -815,6 +1027,23 @@ class Translator:
         if st2[1]:
             raise Unsupported(f"the inlined callee `{fdef.name}` stores on its object ({', '.join(st2[1])})")
         return r
+
+    def closure_env(self) -> dict:
+        """the locals of the enclosing function(s) at the point where the translated (nested) function is defined"""
+        env: dict = {}
+        chain = self.enclosing + [self.fn]
+        for outer, inner in zip(chain[:-1], chain[1:]):
+            a = outer.args
+            for x in a.posonlyargs + a.args + a.kwonlyargs:
+                if x.arg not in self.spec.outer:
+                    raise Unsupported(f"parameter `{x.arg}` of the enclosing function `{outer.name}` has no concrete value (FnSpec.outer)")
+                env[x.arg] = self.spec.outer[x.arg]
+            if inner not in outer.body:
+                raise Unsupported(f"`{inner.name}` is not defined at the top level of `{outer.name}`")
+            r = self.block(outer.body[:outer.body.index(inner)], (env, {}))
+            if r is not None:
+                raise Unsupported(f"`{outer.name}` returns before `{inner.name}` is defined")
+        return env
 
     # ------------------------------------------------------------------ statements
     def assign(self, target, val, st, masked_ok=True):
@@ -943,7 +1172,7 @@ class Translator:
     # ------------------------------------------------------------------ entry
     def run(self) -> Result:
         sp = self.spec
-        env: dict = {}
+        env: dict = self.closure_env() if self.enclosing else {}
         a = self.fn.args
         names = [x.arg for x in a.posonlyargs + a.args + a.kwonlyargs]
         defaults = {}
@@ -990,9 +1219,15 @@ class Translator:
                     raise Unsupported("a masked view is returned")
                 if isinstance(v, tuple):
                     return tuple(fin(x) for x in v)
-                return v if isinstance(v, (Sym, SymB)) else Sym(lit(v))
+                return v if isinstance(v, (Sym, SymB, SymI)) else Sym(lit(v))
             r = fin(r)
+            if sp.also_return:
+                missing = [n for n in sp.also_return if n not in st[0]]
+                if missing:
+                    raise Unsupported(f"{sp.qualname} has no local(s) {missing} at its end")
+                r = tuple(fin(st[0][n]) for n in sp.also_return) + (r if isinstance(r, tuple) else (r,))
         res = Result(sp, self.params, self.lets, r, self.src_sha, self.src_loc)
+        res.prelude = "Numpy" in self.needs
         res.inlined = list(dict.fromkeys(n for n, _ in self.inlined))
         if self.inlined:
             res.src_sha = hashlib.sha256((self.src_sha + "".join(d for _, d in self.inlined)).encode()).hexdigest()
@@ -1004,7 +1239,8 @@ def translate(spec: FnSpec, repo_src: Path) -> Result:
 
 
 def emit_module(ns: str, results: list[Result], header: str) -> str:
-    src = ("import NssVerif.Model.Scalar\n\n/-! GENERATED by harness/pytrans.py from the Python source of the working tree.  Do not edit.\n"
+    src = ("import NssVerif.Model.Scalar\n" + ("import NssVerif.Model.Numpy\n" if any(getattr(r, "prelude", False) for r in results) else "")
+           + "\n/-! GENERATED by harness/pytrans.py from the Python source of the working tree.  Do not edit.\n"
            + header + " -/\nnamespace " + ns + "\nvariable {α : Type} [Scalar α]\n\n")
     for r in results:
         src += r.lean() + "\n"
